@@ -176,6 +176,7 @@ Record case := mkCase {
   c_spur : bool; c_cancun : bool; c_pre : list Z;
   c_accs : list (Z * (Z * Z * Z)); c_sto : list (Z * Z * Z); c_del : list (Z * Z);
   c_us : list Z; c_ks : list Z;
+  c_init : list (Z * list Z);   (* access list: initial_account_load, before anything else *)
   c_setup : list hop;      (* before the checkpoint (its own checkpoints are closed) *)
   c_body : list hop;       (* between checkpoint and revert *)
   c_balanced : bool;       (* every checkpoint opened by the body was closed by the body *)
@@ -185,9 +186,12 @@ Record case := mkCase {
 
 Definition obs_eqb (a b : list (list Z)) : bool := list_eqb zlist_eqb a b.
 
+Fixpoint init_loads (d : db) (s : jstate) (l : list (Z * list Z)) : jstate :=
+  match l with [] => s | (a, ks) :: r => init_loads d (initial_account_load d s a ks) r end.
+
 Definition verdict (c : case) : Z :=
   let d := mk_db (c_accs c) (c_sto c) (c_del c) in
-  let s0 := jnew (c_spur c) (c_cancun c) (mem (c_pre c)) in
+  let s0 := init_loads d (jnew (c_spur c) (c_cancun c) (mem (c_pre c))) (c_init c) in
   let '(r1, obs1) := run_obs d (s0, []) (c_setup c) in
   match r1 with
   | None => if negb (c_completed c) && obs_eqb obs1 (c_obs c) then 0 else 1
